@@ -20,11 +20,13 @@ PROPS = {
     "C01": {
         "exh": [("exh-wrap", FF), ("exh-wrap", MIN)],
         "ops": [("wrap", FF, 8000, 250000), ("wrap", MIN, 3000, 60000), ("wrap9", FF, 1500, 30000)],
+        "spot": ["wrap"],
         "explanation": "theorem C01_wrap: the text is its paragraphs joined by the line ending, every paragraph is the concatenation of body+gap segments (gaps all spaces), line i is indent+body_i+pen (pen empty or one hyphen), Borrowed at the byte offset of its body when indent and pen are empty, ASCII bodies never end in a space — for any partition oracle and any valid splitter (both proved for the reference instances); the Unicode trailing-space exception clause is checked by L2 only; L2: a backtracking re-parse of every returned line as indent + slice of the text (+ inserted hyphen), slices in order, gaps only spaces/line endings, borrowed lines at their byte offset, no slice ending in a space outside the Unicode/force-break exception",
         "assumptions": ["custom splitters return valid character boundaries"],
     },
     "C02": {
         "ops": [("wrap", FF, 8000, 250000), ("wrap", MIN, 3000, 60000)],
+        "spot": ["wrap"],
         "explanation": "text-level theorems C02_lines_fit / C02_break_words / C02_esc_free for every paragraph and both indents (each line measured against the indent it is rendered with), under ParaTop (= not in the listed class CutInsideEscape) and well-formed indents; C02_width_functions discharges the hypotheses on the width function; L2: every first-fit line of well-formed text is at most the width wide, or its body is unbreakable under the configured separator/splitter, or it is in a listed known-finding class",
         "assumptions": ["display width is evaluated with the model's dw on the implementation's lines (dw itself is tied by C10)"],
     },
@@ -40,21 +42,25 @@ PROPS = {
     },
     "C05": {
         "ops": [("wsl", FF, 10000, 300000), ("fills", FF, 4000, 100000), ("wsl", MIN, 3000, 60000), ("fills", MIN, 1500, 30000), ("api", FF, 1, 1), ("api", MIN, 1, 1)],
+        "spot": ["wrap", "fill"],
         "explanation": "theorems C05_fits_first_fit / C05_fits_optimal_fit (fits => exactly one unchanged line; hypotheses TrimOK, Additive = not CutInsideEscape, PenOK = not PenaltyWithoutRoom, each a theorem in the common cases: C05_hypotheses), C05_shortcut_first_fit / _optimal_fit / _texts (the byte-length shortcut is unobservable for ALL paragraphs, arbitrary penalties), C05_fill_shortcut; L2: impl-vs-impl comparison of wrap_single_line with its slow path and of fill with fill_slow_path through upstream's cfg(fuzzing) exports, and fits => one unchanged line, outside the listed classes",
         "assumptions": ["upstream's --cfg fuzzing exports are the only way to reach the slow path directly"],
     },
     "C08": {
         "ops": [("wrap", FF, 6000, 150000), ("wrap8", FF, 6000, 150000), ("wrap", MIN, 2000, 40000), ("wrap8", MIN, 2000, 40000)],
+        "spot": ["wrap"],
         "explanation": "theorems C08_indents (every line starts with its indent, for every text/option/oracle) and C08_rest_independent_of_indent_characters (SameShape options give the same rests and Cow kinds); L2 checks both on the implementation, the second on pairs of runs with substituted indents",
         "assumptions": [],
     },
     "C13": {
         "ops": [("wrap13", FF, 10000, 300000), ("wrap13", MIN, 3000, 60000)],
+        "spot": ["wrap"],
         "explanation": "theorem C13_wrap: for paragraphs given as interleavings of visible characters and well-formed space-free sequence runs that are Attached, with HyOK for the hyphen splitter and OracleOK for the Unicode separator, strip(lines of wrap(coloured)) = strip(lines of wrap(plain)) and every coloured line ends at top level — both separators, all splitters, break_words on/off, first-fit and any oracle that is a partition and blind to sequences (proved for the reference optimal-fit); the shortcut hypothesis is C05(b) (C13_shortcut_ok_*); L2: for texts meeting the precondition recogniser, strip(lines(coloured)) = lines(stripped), no line ends inside a sequence, none dropped, outside the listed class CutInsideEscape",
         "assumptions": [],
     },
     "C14": {
         "ops": [("fill2", FF, 10000, 300000), ("fill2", MIN, 3000, 60000)],
+        "spot": ["fill"],
         "explanation": "theorems C14_first_fit (fill(fill t) = fill t for first-fit, empty indents, ASCII separator, built-in splitters, break_words on/off, every width, both line endings, every text) and C14_optimal_fit (reference oracle, no overflowing line, ESC-free text); the Unicode-separator half cannot be proved against an abstract linebreak oracle and is checked by L2 only; L2: fill(fill(t)) = fill(t) on the implementation under the property's option conditions",
         "assumptions": ["reading of the optimal-fit clause as in DESIGN.md §6/C14"],
     },
@@ -76,6 +82,7 @@ PROPS = {
     },
     "C09": {
         "ops": [("wrap9", FF, 6000, 150000), ("wrap9", MIN, 2000, 40000), ("std", FF, 4000, 100000)],
+        "spot": ["wrap", "fill"],
         "explanation": "theorems C09_prefix/tail_independent/empty_indents/line_count/fill_is_join/crlf_equivariant for any optimal-fit oracle that returns a partition; L1 on seven related calls per case; L2 evaluates each relation on the implementation's results",
         "assumptions": ["the optimal-fit oracle returns at least one line and does not invent words (follows from C06)"],
     },
@@ -99,11 +106,13 @@ PROPS = {
     },
     "C15": {
         "ops": [("unfill15", FF, 8000, 200000), ("unfill", FF, 8000, 200000), ("unfill15", MIN, 2000, 40000)],
+        "spot": ["unfill"],
         "explanation": "theorems: C15_unfill_inverts_fill (fill itself, any width, either algorithm via any partition oracle, either line ending, with/without trailing ending), C15_roundtrip (the shape lemma), C15_total/structure/line_ending for ALL strings; L2 checks the round trip on fill's real output and the structural half on raw strings",
         "assumptions": ["the optimal-fit oracle returns a partition (OfitOK)"],
     },
     "C16": {
         "ops": [("refill16", FF, 8000, 200000), ("refill16", MIN, 2000, 40000)],
+        "spot": ["unfill"],
         "explanation": "theorems C16_refill_of_fill (refill(fill(t,o1)+tail, o2) = fill(t, o2 with o1 indents)+converted tail when the first filling has >= 2 lines), C16_refill, C16_independent_of_old_width; L2 compares refill(fill(t,o1),o2) with fill(t,o2 with o1's indents) on the implementation",
         "assumptions": ["as C15"],
     },
